@@ -668,6 +668,7 @@ func runC19(tierName string) int {
 		healRuns, healOK                 int
 		probes                           map[string]int
 		worldChanges                     int
+		worldSamples                     []string
 		samples                          []any
 		srcKinds, dstKinds, shapes, encs map[string]int
 		expectPins                       map[string]int
@@ -768,6 +769,12 @@ func runC19(tierName string) int {
 			A.probes["utf8_source"]++
 		}
 		A.worldChanges += len(o.WorldChanges)
+		for _, wc := range o.WorldChanges {
+			k := fmt.Sprintf("shape=%s src=%s dst=%s lst=%s: %s", s.Shape, s.SrcKind, s.DstKind, s.LstKind, wc)
+			if len(A.worldSamples) < 12 {
+				A.worldSamples = append(A.worldSamples, k)
+			}
+		}
 		if o.LineMismatch != "" {
 			A.probes["parse_error_line_differs_from_comment_free_form_nongating"]++
 		}
@@ -870,6 +877,7 @@ func runC19(tierName string) int {
 			"heal_runs_succeeded":                A.healOK,
 			"probes":                             A.probes,
 			"unexpected_world_changes_nongating": A.worldChanges,
+			"world_change_samples":               A.worldSamples,
 			"runs_per_hour":                      int(float64(A.evals) / wall * 3600),
 			"seeds_per_hour":                     int(float64(A.evals) / wall * 3600),
 			"simulated_time_s":                   0,
